@@ -2,6 +2,7 @@
 # tools/mutant.sh <patch> <ID> [ID...]   - run quick checks against a scratch copy of /repo with the patch applied.
 # Expects exit 1 (violation). The copy lives outside /repo and /verif and is removed afterwards.
 patch="$(readlink -f "$1")"; shift
+here="$(cd "$(dirname "$0")/.." && pwd)"
 tmp="$(mktemp -d /dev/shm/vf-mut-XXXXXX)"
 trap 'rm -rf "$tmp"' EXIT
 mkdir "$tmp/repo"
@@ -9,7 +10,7 @@ mkdir "$tmp/repo"
 (cd "$tmp/repo" && patch -p1 -s < "$patch") || { echo "patch failed"; exit 3; }
 rc=0
 for id in "$@"; do
-  out="$(cd /verif && VF_REPO="$tmp/repo" VF_NO_EVIDENCE=1 ./check "$id" --tier "${TIER:-quick}" 2>&1)"
+  out="$(cd "$here" && VF_REPO="$tmp/repo" VF_NO_EVIDENCE=1 ./check "$id" --tier "${TIER:-quick}" 2>&1)"
   code=$?
   echo "$(basename "$patch") $id -> exit $code :: $(echo "$out" | grep -m1 'what:' | cut -c1-220)"
   [ "$code" = 1 ] || rc=1
